@@ -831,7 +831,6 @@ package analysis
 //@   loop 1: invariant s != nil && idxMaps(s) && s.spec == old(s.spec) && s.patterns.parameters == old(s.patterns.parameters) && s.patterns.headers == old(s.patterns.headers) && s.patterns.schemas == old(s.patterns.schemas) && s.patterns.allPatterns == old(s.patterns.allPatterns)
 //@   loop 1: invariant forall j in 0..idx :: op.Parameters[j].Pattern != "" ==> ("#" + slashpath.Join("/paths", jsonpointer.Escape(path), "parameters", strconv.Itoa(j))) in dom(s.patterns.parameters) && ("#" + slashpath.Join("/paths", jsonpointer.Escape(path), "parameters", strconv.Itoa(j))) in dom(s.patterns.allPatterns)
 
-
 // the items chain under an owner: every (key, Enum) pair it declares
 //@ fun itEnum(k string, p []any, items *spec.Items, prefix string, name string) bool = items != nil && ((k == "#" + path.Join(prefix, name) && p == items.Enum && len(p) > 0) || itEnum(k, p, items.Items, path.Join(prefix, name), name))
 
@@ -921,7 +920,6 @@ package analysis
 //@   ensures forall i in 0..len(pi.Parameters) :: len(pi.Parameters[i].Enum) > 0 ==> ("#" + slashpath.Join("/paths", jsonpointer.Escape(path), "parameters", strconv.Itoa(i))) in dom(s.enums.parameters) && ("#" + slashpath.Join("/paths", jsonpointer.Escape(path), "parameters", strconv.Itoa(i))) in dom(s.enums.allEnums)
 //@   loop 1: invariant s != nil && idxMaps(s) && s.spec == old(s.spec) && s.enums.parameters == old(s.enums.parameters) && s.enums.headers == old(s.enums.headers) && s.enums.schemas == old(s.enums.schemas) && s.enums.allEnums == old(s.enums.allEnums)
 //@   loop 1: invariant forall j in 0..idx :: len(op.Parameters[j].Enum) > 0 ==> ("#" + slashpath.Join("/paths", jsonpointer.Escape(path), "parameters", strconv.Itoa(j))) in dom(s.enums.parameters) && ("#" + slashpath.Join("/paths", jsonpointer.Escape(path), "parameters", strconv.Itoa(j))) in dom(s.enums.allEnums)
-
 
 // ---------------------------------------------------------------- analyzer.go: the reference index (C11)
 // generated by /verif/tools/gen_refs_schema.py
@@ -1054,8 +1052,6 @@ package analysis
 //@   loop 1: invariant forall kk in dom(s.references.responses) :: (old(kk in dom(s.references.responses)) && s.references.responses[kk] == old(s.references.responses[kk])) || (kk == "#" + path.Join(prefix, "responses", strconv.Itoa(k)) && res.Ref.String() != "" && s.references.responses[kk] == res.Ref)
 //@   loop 1: invariant forall kk string :: old(kk in dom(s.references.allRefs)) ==> kk in dom(s.references.allRefs)
 //@   loop 1: invariant res.Ref.String() != "" ==> ("#" + path.Join(prefix, "responses", strconv.Itoa(k))) in dom(s.references.responses) && s.references.responses["#" + path.Join(prefix, "responses", strconv.Itoa(k))] == res.Ref && ("#" + path.Join(prefix, "responses", strconv.Itoa(k))) in dom(s.references.allRefs)
-
-
 
 // ---------------------------------------------------------------- analyzer.go: the schema index (C12)
 // generated by /verif/tools/gen_schemas_schema.py
